@@ -34,7 +34,7 @@ ASSUMPTIONS = ['RefBool = Kleene evaluation of the reference evaluators over {-1
                'online kinds: past-time formulas; dense: sensors start at 0']
 REAL = common.REAL_ALL
 STUBS = common.STUBS_ALL
-ENVELOPE_RULES = ['memory-past-above-delayed (F08) for the pastified online monitor']
+ENVELOPE_RULES = ['memory-past-above-delayed (F08), narrowed: only a past operator with UNBOUNDED memory (once, historically, since) above a sub-formula with horizon > 0 is excluded; with bounded memory m (prev/s_prev/rise/fall: 1, bounded operators: their upper bound, summed along nesting) the comparison starts m updates after the horizon (common.warmup_extra)']
 PROBES = ['pastified', 'positive_verdict', 'negative_verdict', 'zero_robustness_no_claim', 'perturbation_clause', 'nested_not_or_implies',
           'dense_time', 'online', 'modular_shared_delays', 'same_numerals_different_unit']
 INF = float('inf')
@@ -58,7 +58,7 @@ def gen(rng, tier):
     for _ in range(100):
         ast = sg.gen_formula(rng, sg.GenCfg(vars=vars_, ops=ops, max_depth=rng.randint(2, 5), max_bound=rng.choice([2, 4]),
                                             strict_sorts=True, pred_var_const=pvc, p_reuse=rng.choice([0.0, 0.2])))
-        if sg.vars_of(ast) and ast[0] not in ('var', 'const') and ast[0] not in sg.TERM_UN + sg.TERM_BIN and not _memory_above_future(ast):
+        if sg.vars_of(ast) and ast[0] not in ('var', 'const') and ast[0] not in sg.TERM_UN + sg.TERM_BIN and not (mode == 'on' and common.f08_blind(ast)):
             break
     if (not dense) and mode == 'on' and rng.random() < 0.3:
         # directed: a pastified bounded-future operator over variable-vs-constant predicates (magnitude errors of the
@@ -76,7 +76,7 @@ def gen(rng, tier):
     if (not dense) and mode == 'on' and rng.random() < 0.15:
         # a named sub-specification used at two places that need different delays after pastify()
         g = common.gen_shared_delays(rng, vars_, set(ops) | {'eventually_b', 'always_b', 'next'}, strict_sorts=True, pred_var_const=True)
-        if g is not None and not _memory_above_future(g[0]):
+        if g is not None and not common.f08_blind(g[0]):
             ast, defs, top = g
             pvc = True
             modular = {'key': json.dumps(ast), 'subs': ['%s = %s;' % (nm, sg.to_text(a)) for nm, a in defs], 'top': 'out = ' + sg.to_text(top) + ';'}
@@ -104,7 +104,7 @@ def gen(rng, tier):
         sc['signals'] = dict((v, world.gen_dense_signal(rng, rng.randint(1, 6), start_q=0, max_gap_q=4)[0]) for v in vars_)
         sc['nbatches'] = rng.randint(1, 3)
     else:
-        sc['n'] = rng.randint(1, 8) + (int(sg.horizon(ast)) if pastify else 0)
+        sc['n'] = rng.randint(1, 8) + (int(sg.horizon(ast)) + int(common.warmup_extra(ast)) if pastify else 0)
         sc['data'] = world.gen_trace(rng, vars_, sc['n'])
     return sc
 
@@ -117,7 +117,7 @@ def _memory_above_future(ast):
 
 
 def envelope(sc):
-    return common.warmup_visible(sc['ast']) if sc.get('pastify') else []
+    return common.f08_blind(sc['ast']) if sc.get('pastify') else []
 
 
 def sign_hook_scalar(node, l, r):
@@ -268,7 +268,10 @@ def run(sc):
         instants = [t for t in D.check_points([mv or [], bv], lo, hi)] if hi >= lo else []
         r.sim_time += max(0.0, hi - lo)
     else:
-        instants = list(range(int(sg.horizon(sc['ast'])) if sc.get('pastify') else 0, sc['n']))
+        # pastified: from the horizon on; inside the F08 region once the warm-up left every operator's memory
+        instants = list(range(int(sg.horizon(sc['ast'])) + int(common.warmup_extra(sc['ast'])) if sc.get('pastify') else 0, sc['n']))
+        if sc.get('pastify') and common.warmup_extra(sc['ast']):
+            r.probes['compared_after_warmup_memory'] += 1
         r.sim_time += sc['n']
         if sc.get('pastify'):
             r.probes['pastified'] += 1
